@@ -372,6 +372,8 @@ def run_stack_depth(ctx):
 
 
 def run(spec, ctx):
+    import jsonpath
+
     r = ctx.rng
     rr = Renderer(r, blanks=0.05)
     if spec["shard"] == 2:
@@ -391,6 +393,32 @@ def run(spec, ctx):
             for rel in rels:
                 for style in ("RELATIVE", "ROOT", "FLAT"):
                     check_case(ctx, impl.fresh(doc), mq, rr.top(mq), rel, [rr.top(a) for a in rel], style, "directed")
+        # matches that are arrays and objects held in other container types (a tuple of rows, a read-only mapping, UserDict,
+        # UserList, deque, a named tuple): the same projections as for the same document made of lists and dicts
+        import collections
+        import collections.abc
+        import types as _types
+
+        Row = collections.namedtuple("Row", "a b")
+        plain = {"rows": [{"a": 1, "b": [10, 20, 30]}, {"a": 2, "b": [40]}], "m": {"x": {"y": 1, "z": [5, 6]}, "w": 2}, "u": {"k": [1, 2, 3]}, "q": [[1, 2], [3, 4]], "nt": [7, [8, 9]]}
+        other = {"rows": tuple(plain["rows"]), "m": _types.MappingProxyType(plain["m"]), "u": collections.UserDict(plain["u"]), "q": collections.deque([collections.UserList([1, 2]), (3, 4)]), "nt": Row(7, [8, 9])}
+        for mq_text, rel_texts in (("$.rows", ["[0].a", "[1].b[0]"]), ("$.rows", ["[*].a"]), ("$.m", ["x.y", "x.z[1]"]), ("$.m", ["w"]), ("$.u", ["k[0,2]"]), ("$.q", ["[0][1]", "[1][0]"]), ("$.q[1]", ["[1]"]), ("$.nt", ["[1][0]", "[0]"]),
+                                   ("$", ["rows[1].a", "m.x.y"]), ("$.rows[*]", ["a", "b[1:]"]), ("$.*", ["*"]), ("$.q[*]", ["[0]"])):
+            for style in ("RELATIVE", "ROOT", "FLAT"):
+                proj = getattr(jsonpath.Projection, style)
+                def as_lists_and_dicts(v):
+                    if isinstance(v, collections.abc.Mapping):
+                        return {k: as_lists_and_dicts(x) for k, x in v.items()}
+                    if isinstance(v, (collections.abc.Sequence, collections.deque)) and not isinstance(v, str):
+                        return [as_lists_and_dicts(x) for x in v]
+                    return v
+                a = impl.call(lambda: [canon(as_lists_and_dicts(x)) for x in jsonpath.query(mq_text, plain).select(*rel_texts, projection=proj)])
+                b = impl.call(lambda: [canon(as_lists_and_dicts(x)) for x in jsonpath.query(mq_text, other).select(*rel_texts, projection=proj)])
+                ctx.evaluation()
+                ctx.count("projections_of_matches_held_in_other_container_types")
+                if not a.ok or not b.ok or a.value != b.value:
+                    ctx.violation("projection-of-a-match-held-in-another-container-type-differs", {"other_containers": True}, {"match_query": mq_text, "relative_queries": rel_texts, "style": style, "lists_and_dicts": a.desc() if not a.ok else a.value, "other_containers": b.desc() if not b.ok else b.value})
+                    return
         # members whose name is the keys-selector marker followed by their own value (`"~id": "id"`, `"~": ""`, `"#x": "x"`): they
         # look like what the non-standard keys selector yields, and are ordinary members all the same
         kdoc = {"o": {"~id": "id", "~": "", "#x": "x", "~a": "b", "id": "~id", "n": {"~deep": "deep", "k": 1}}, "arr": [{"~v": "v"}, {"~v": "w"}]}
@@ -447,5 +475,8 @@ def replay(case, ctx):
         return
     if case.get("stack_depth"):
         run_stack_depth(ctx)
+        return
+    if case.get("other_containers"):
+        run({"shard": 0, "n": 0}, ctx)
         return
     check_case(ctx, case["doc"], case["mq_ast"], case["mq_text"], case["rel_asts"], case["rel_texts"], case["style"], case.get("class", "replay"))
